@@ -124,6 +124,11 @@ func (e *Engine) verifyFunc(fn *ssa.Function, c *Contract) (fres *FuncResult) {
 	if c != nil {
 		x.structuralObligations(fn, c)
 	}
+	if c != nil && c.StructuralOnly != "" {
+		// the body is outside the engine's subset (reason given in the contract): only the structural obligations are decided
+		x.externs[fmt.Sprintf("body of %s not executed symbolically (%s): structural obligations only", fnKeyShort(fn), c.StructuralOnly)] = true
+		return fres
+	}
 	_, _, rr := x.runFunc(fn, args, nil, st, "true", 0, true)
 	if c != nil {
 		o := x.addObl("cover:exit-reachable", "", "", "true", rr)
@@ -513,6 +518,43 @@ func (x *VC) structuralObligations(fn *ssa.Function, c *Contract) {
 		}
 		if o := x.addObl("recovers", "calls recover() directly", "", "true", cond); o != nil {
 			o.Note = "recover() stops a panic only when called directly by the deferred function"
+		}
+	}
+	if c.AlwaysSends {
+		// every return of the function is dominated by a channel send made by the function itself (an unconditional,
+		// blocking `ch <- v`; a send inside `select`, in a callee or in a goroutine does not count)
+		ok := len(fn.Blocks) > 0
+		for _, b := range fn.Blocks {
+			isRet := false
+			for _, ins := range b.Instrs {
+				if _, r := ins.(*ssa.Return); r {
+					isRet = true
+				}
+			}
+			if !isRet {
+				continue
+			}
+			found := false
+			for _, d := range fn.Blocks {
+				if d != b && !d.Dominates(b) {
+					continue
+				}
+				for _, ins := range d.Instrs {
+					if _, sd := ins.(*ssa.Send); sd {
+						found = true
+					}
+				}
+			}
+			if !found {
+				ok = false
+			}
+		}
+		cond := "false"
+		if ok {
+			cond = "true"
+		}
+		if o := x.addObl("always-sends", "every return follows a blocking channel send of the function itself", "", "true", cond); o != nil {
+			o.Note = "a message that arrives must be handed on: no path may return without an unconditional send"
 		}
 	}
 	for _, cf := range c.ClosureFirst {
